@@ -133,6 +133,22 @@ pub fn variants(kind: &str) -> Vec<TlsMessage<'static>> {
     use TlsMessageHandshake as H;
     let hs = |h| TlsMessage::Handshake(h);
     let mut v = variants_base(kind);
+    // every cipher suite of the registry (each key exchange / authentication / cipher class) and a few unlisted ids: the automaton reads the
+    // message KIND, not what the peers negotiate
+    let ids: Vec<u16> = (0..=65535u16).filter(|id| TlsCipherSuite::from_id(*id).is_some()).chain([0x1300, 0x00fe, 0xc0ff, 0x5601, 0xfefe]).collect();
+    for id in &ids {
+        match kind {
+            "ServerHello" => {
+                v.push(hs(H::ServerHello(TlsServerHelloContents::new(0x0303, &R1, None, *id, 0, None))));
+                v.push(hs(H::ServerHello(TlsServerHelloContents::new(0x0303, &R2, Some(&B32), *id, 0, Some(&X_SEL13)))));
+            }
+            "ServerHelloV13Draft18" => v.push(hs(H::ServerHelloV13Draft18(TlsServerHelloV13Draft18Contents { version: TlsVersion(0x7f12), random: &R1, cipher: TlsCipherSuiteID(*id), ext: None }))),
+            "HelloRetryRequest" => v.push(hs(H::HelloRetryRequest(TlsHelloRetryRequestContents { version: TlsVersion(0x0304), cipher: TlsCipherSuiteID(*id), ext: None }))),
+            "ClientHello0" => v.push(hs(H::ClientHello(TlsClientHelloContents::new(0x0303, &R1, None, vec![TlsCipherSuiteID(*id)], vec![TlsCompressionID(0)], None)))),
+            "ClientHello1" => v.push(hs(H::ClientHello(TlsClientHelloContents::new(0x0303, &R1, Some(&B32), vec![TlsCipherSuiteID(*id), TlsCipherSuiteID(0x00ff)], vec![TlsCompressionID(0)], None)))),
+            _ => {}
+        }
+    }
     for x in xblocks() {
         for r in [&HRR, &DOWNGRD, &R1] {
             match kind {
